@@ -224,7 +224,7 @@ func funcName(sig string) string {
 		}
 	}
 	if i := strings.IndexAny(sig, "(["); i >= 0 {
-		return sig[:i]
+		return strings.TrimSpace(sig[:i])
 	}
 	return sig
 }
